@@ -568,6 +568,54 @@ func vfC10(c *hx.Ctx) {
 		c.UnitBudget = 10 * time.Second
 		c.Explore("setmtu-core", map[string]any{"positions": []string{"before traffic", "after 2 calls", "after 9 calls"}}, 0, run)
 	}
+	// out-of-band packets count too: payload lengths around GetOOBMaxSize() x MTU x overhead class, sent during traffic
+	c.ByUnit = true
+	for _, cl := range []struct {
+		ciph string
+		mtu  int
+	}{{"", 0}, {"", 1500}, {"aes-128", 576}, {"aes-gcm", 1500}, {"aes-gcm", 0}} {
+		cl := cl
+		cf := vfPairCfg{Cipher: cl.ciph, DS: 2, PS: 1, SDS: -1, Stream: true, NoDelay: [4]int{1, 10, 2, 1}, Mtu: cl.mtu, Writes: []int{300, 1200, 50}, WritesBack: []int{100}, ReadBuf: 4096,
+			Pool: vrt.PoolEager, Preempt: 1, Switch: 1, Select: 1, Wire: true, Owners: []string{"C10:"}, HorizonS: 30}
+		if cl.mtu != 0 && cl.mtu < 1000 {
+			cf.Writes = []int{300, 500, 50}
+		}
+		body := func(p *vfPair) {
+			max := p.client.GetOOBMaxSize()
+			d := vrt.Choose(12, "OOB payload length relative to the maximum") - 3 // max-3 .. max+8
+			when := vrt.Choose(2, "before / during traffic")
+			var wg vrt.WaitGroup
+			wg.Add(1)
+			send := func() {
+				if max+d < 0 {
+					return
+				}
+				err := p.client.SendOOB(vfPayload(9, max+d, 0))
+				if d > 0 && err == nil {
+					p.bad("C10:oob-above-the-limit-accepted", "SendOOB of GetOOBMaxSize()+%d = %d bytes was accepted (session MTU %d)", d, max+d, cl.mtu)
+				}
+				if d <= 0 && err != nil {
+					p.bad("C10:oob-within-the-limit-refused", "SendOOB of %d bytes (limit %d) failed: %v", max+d, max, err)
+				}
+			}
+			if when == 0 {
+				send()
+			}
+			vrt.Go("traffic", func() { defer wg.Done(); p.traffic() })
+			if when == 1 {
+				vrt.Sleep(4 * time.Millisecond)
+				send()
+			}
+			wg.Wait()
+			vrt.Idle(100 * time.Millisecond)
+			p.teardown()
+		}
+		c.UnitBudget = 10 * time.Second
+		pr := vfPairParams(cf, 0)
+		pr["oob_lengths"] = "GetOOBMaxSize()-3 .. +8"
+		c.Explore(fmt.Sprintf("oob/mtu=%d/cipher=%s", cl.mtu, cl.ciph), pr, 0, vfPairRun(cf, 0, body))
+	}
+	c.ByUnit = false
 	// the core never hands its output callback more than its MTU nor an empty packet, whatever a peer sends
 	vfAdversarialBFS(c, "C10:", 4, false)
 }
